@@ -137,6 +137,23 @@ def run(chk):
             if ma != "reject":
                 chk.tie_broken("csleep(%d): compiler %s" % (n, r["status"]), {"n": n})
     chk.coverage["exhaustive_csleep_table"] = True
+    # ---- adjacent delays: csleep(n); csleep(m) must take n + m cycles at every level (the optimiser sees the
+    #      seam between the two sequences) ----
+    for n in range(2, 11):
+        for k in range(2, 11):
+            src = "void main() { csleep(%d); csleep(%d); }\n" % (n, k)
+            for level in (0, 1, 2, 3):
+                rr = h.compile(src, level)
+                if rr["status"] != "ok":
+                    chk.tie_broken("two adjacent csleep statements rejected: %s" % rr["status"], {"source": src}); break
+                prog.load(m, "c18", rr)
+                res = prog.run(m, "c18", fuel=300)
+                chk.count("csleep_pair_runs")
+                chk.case(key=("csleep2", n, k, level), nontrivial=True)
+                if res["stop"] != "done" or res["cycles"] != n + k + 6:
+                    chk.fail("csleep-cycles", "csleep(%d); csleep(%d) at -O%d takes %s cycles instead of %d (stop=%s)" % (n, k, level, res.get("cycles", 0) - 6, n + k, res["stop"]),
+                             {"source": src, "level": level, "result": {kk: v for kk, v in res.items() if kk != "mem"}})
+                    break
     # ---- optimize: model vs code on random vectors ----
     for it in range(chk.scale(1500, 30000)):
         v = gasm.rand_vector(rng)
